@@ -38,10 +38,17 @@ OPTIONAL = {"nodes": {"population": -1, "individual": -1, "metadata": []}, "edge
             "individuals": {"location": [], "parents": [], "metadata": []}}
 
 
+# flag words beyond 31 bits travel as tokens (TLC integers are 32 bit): 2**31 and 2**32 - 1
+BIGFLAG = {900031: 2 ** 31, 900032: 2 ** 32 - 1}
+BIGFLAG_INV = {v: k for k, v in BIGFLAG.items()}
+
+
 def to_kwargs(cls, rec):
     kw = {}
     for f, v in rec.items():
-        if f in FLOATS:
+        if f == "flags":
+            kw[f] = BIGFLAG.get(v, v)
+        elif f in FLOATS:
             kw[f] = tskit.UNKNOWN_TIME if v == UNK else float(v)
         elif f == "location":
             kw[f] = [float(x) for x in v]
@@ -78,6 +85,8 @@ def to_rec(cls, row):
             rec[f] = [int(x) for x in v]
         elif f == "id":
             continue
+        elif f == "flags":
+            rec[f] = BIGFLAG_INV.get(int(v), int(v))
         else:
             rec[f] = int(v)
     return rec
@@ -98,10 +107,10 @@ def rs(rng):
 def mkrow(cls, rng, n):
     ref = lambda: rng.randint(-1, max(n - 1, -1))
     if cls == "individuals":
-        return dict(flags=rng.randint(0, 3), location=[rng.randint(-2, 2) for _ in range(rng.choice([0, 1, 3]))],
+        return dict(flags=rng.choice([0, 1, 2, 3, 3, 900031, 900032]), location=[rng.randint(-2, 2) for _ in range(rng.choice([0, 1, 3]))],
                     parents=[ref() for _ in range(rng.choice([0, 1, 2]))], metadata=rb(rng))
     if cls == "nodes":
-        return dict(flags=rng.randint(0, 2), time=rng.randint(-2, 5), population=rng.randint(-1, 2), individual=rng.randint(-1, 2), metadata=rb(rng))
+        return dict(flags=rng.choice([0, 1, 2, 2, 900031, 900032]), time=rng.randint(-2, 5), population=rng.randint(-1, 2), individual=rng.randint(-1, 2), metadata=rb(rng))
     if cls == "edges":
         return dict(left=rng.randint(0, 3), right=rng.randint(3, 6), parent=rng.randint(0, 4), child=rng.randint(0, 4), metadata=rb(rng))
     if cls == "migrations":
